@@ -1677,6 +1677,28 @@ impl<'tcx> Cx<'tcx> {
             ("core::cmp::PartialOrd::gt", "gt"),
             ("core::cmp::PartialOrd::ge", "ge"),
         ];
+        // Order comparisons of a one-component wrapper (`Rad<S> >= Rad::zero()`): the derived `partial_cmp` would fork four
+        // ways per comparison; the comparison of the single scalar inside is the same test with two outcomes.
+        if !self_scalar && argv.len() == 2 && matches!(name, "core::cmp::PartialOrd::lt" | "core::cmp::PartialOrd::le" | "core::cmp::PartialOrd::gt" | "core::cmp::PartialOrd::ge") {
+            if let Some(t0) = self_ty {
+                let t0 = match t0.kind() {
+                    ty::Ref(_, i, _) => *i,
+                    _ => t0,
+                };
+                let same_rhs = argtys.get(1).map(|t| { let t = match t.kind() { ty::Ref(_, i, _) => *i, _ => *t }; t == t0 }).unwrap_or(false);
+                if same_rhs && matches!(t0.kind(), ty::Adt(d, _) if d.is_struct()) && self.leaf_count(t0) == 1 {
+                    let (a, b) = (self.deref_val(st, &argv[0])?, self.deref_val(st, &argv[1])?);
+                    let (mut la, mut lb) = (vec![], vec![]);
+                    self.flatten(&a, t0, &mut la);
+                    self.flatten(&b, t0, &mut lb);
+                    if la.len() == 1 && lb.len() == 1 && matches!(la[0], V::Sym(_) | V::Int(_)) && matches!(lb[0], V::Sym(_) | V::Int(_)) {
+                        let op = name.rsplit("::").next().unwrap();
+                        let (x, y) = (self.to_term(st, &la[0]), self.to_term(st, &lb[0]));
+                        return Ok(Some(V::Sym(app(op, vec![x, y]))));
+                    }
+                }
+            }
+        }
         if self_scalar {
             // the right operand must be scalar-like too (S * Vector3<S> for primitive S is an impl in cgmath)
             let rhs_scalar = argtys.get(1).map(|t| self.scalar_like(*t)).unwrap_or(true);
@@ -2143,6 +2165,15 @@ impl<'tcx> Cx<'tcx> {
                 return Ok(None);
             }
         }
+        // `Zip` of two concrete cursors whose specialised implementation cannot be selected in generic context
+        // (IterMut zipped with array::IntoIter, ...): the plain lock-step semantics
+        if name.starts_with("core::iter::adapters::zip::ZipImpl::") {
+            if let Some(r) = self.zip_model(st, &name, &argv)? {
+                push_uniq(&mut self.stats.borrow_mut().models, name.clone());
+                finish(self, st, r)?;
+                return Ok(None);
+            }
+        }
         // uninterpreted
         let gargs = format!("{:?}", cargs);
         let mut ts = vec![cstr(&name), cstr(&gargs)];
@@ -2202,6 +2233,52 @@ impl<'tcx> Cx<'tcx> {
         let r = self.shape(st, dty, ct);
         finish(self, st, r)?;
         Ok(None)
+    }
+
+    fn cursor_elem(&self, st: &State<'tcx>, ptr: &Ptr<'tcx>, i: usize, by_value: bool) -> R<V<'tcx>> {
+        let (start, _) = ptr.win.ok_or("cursor without window")?;
+        let mut q = ptr.clone();
+        q.win = None;
+        q.segs.last_mut().unwrap().path.push(PE::F(start + i));
+        if by_value {
+            self.read(st, &q)
+        } else {
+            Ok(V::Ref(q))
+        }
+    }
+
+    fn zip_model(&self, st: &mut State<'tcx>, name: &str, argv: &[V<'tcx>]) -> R<Option<V<'tcx>>> {
+        let m = name.rsplit("::").next().unwrap_or("");
+        match m {
+            "new" if argv.len() == 2 => {
+                if let (V::Iter { front: f1, back: b1, .. }, V::Iter { front: f2, back: b2, .. }) = (&argv[0], &argv[1]) {
+                    let len = std::cmp::min(b1 - f1, b2 - f2);
+                    return Ok(Some(V::Agg(vec![argv[0].clone(), argv[1].clone(), V::Int(0), V::Int(len as u128)])));
+                }
+                Ok(None)
+            }
+            "next" if argv.len() == 1 => {
+                let V::Ref(zp) = &argv[0] else { return Ok(None) };
+                let V::Agg(fs) = self.read(st, zp)? else { return Ok(None) };
+                if fs.len() < 2 {
+                    return Ok(None);
+                }
+                if let (V::Iter { ptr: p1, front: f1, back: b1, by_value: v1 }, V::Iter { ptr: p2, front: f2, back: b2, by_value: v2 }) = (&fs[0], &fs[1]) {
+                    if f1 < b1 && f2 < b2 {
+                        let x = self.cursor_elem(st, p1, *f1, *v1)?;
+                        let y = self.cursor_elem(st, p2, *f2, *v2)?;
+                        let mut nf = fs.clone();
+                        nf[0] = V::Iter { ptr: p1.clone(), front: f1 + 1, back: *b1, by_value: *v1 };
+                        nf[1] = V::Iter { ptr: p2.clone(), front: f2 + 1, back: *b2, by_value: *v2 };
+                        self.write(st, zp, V::Agg(nf))?;
+                        return Ok(Some(V::Enum(1, vec![V::Agg(vec![x, y])])));
+                    }
+                    return Ok(Some(V::Enum(0, vec![])));
+                }
+                Ok(None)
+            }
+            _ => Ok(None),
+        }
     }
 
     fn has_iter(&self, st: &State<'tcx>, v: &V<'tcx>, depth: usize) -> bool {
